@@ -101,8 +101,8 @@ Consume(st, o, md, count, lim) ==
         res |-> "ok", ret |-> k, addrs |-> A]
 
 Deliver(st, A) == [st EXCEPT !.out = @ \o [i \in 1..Len(A) |-> st.mem[A[i]]]]
-Place(st, A, toks) == [st EXCEPT !.mem = [a \in DOMAIN @ |-> IF \E i \in 1..Len(A) : A[i] = a
-                                                             THEN toks[CHOOSE i \in 1..Len(A) : A[i] = a] ELSE @[a]]]
+Place(st, A, toks) == [st EXCEPT !.mem = [a \in DOMAIN @ |-> IF \E i \in 1..Min(Len(A), Len(toks)) : A[i] = a
+                                                             THEN toks[CHOOSE i \in 1..Min(Len(A), Len(toks)) : A[i] = a] ELSE @[a]]]
 
 (* ---- Reader (src/transport/mod.rs) ---- *)
 \* io::Read::read(buf): consume_for_read(buf.len(), copy closure)
@@ -309,7 +309,7 @@ AReadStep(o, d) ==
 PlacedMem(o, dd, src) ==
   [a \in DOMAIN memA |-> IF \E i \in 1..dd : flat[o][i] = a THEN src[CHOOSE i \in 1..dd : flat[o][i] = a] ELSE memA[a]]
 AWriteStep(o, d, src, viaFile, newmem) ==
-  LET dd == Min(d, Len(flat[o]))
+  LET dd == Min(Min(d, Len(flat[o])), Len(src))      \* (more than offered/available is reported by ResFaults)
       direct == kind = "F" /\ ~spl[o]
       placed == PlacedMem(o, dd, src) IN
   /\ flat' = [flat EXCEPT ![o] = Drop(@, dd)]
